@@ -116,7 +116,7 @@ CATALOGUE = [
     ("unary_minus_kinds", "a = 7\nc = 2.5\nd = B2\n" + T("-a") + T("-c") + T("-d")),
     ("closure_captured_kinds", "a = 7\nb = B2\nf = fn() -> bigint {\n return a + b\n}\n" + T("f()")),
     ("callback_captured_operand", "k = 3\nl: [int...] = [1, 2]\nf = fn(a: int) -> int {\n return a * k\n}\n" + T("l.map(f)")),
-    ("unwrap_assign_expr", "o: int? = 5\nif x ?= o {\n" + T("x") + "}\n"),
+    ("unwrap_assign_expr", "o: int? = 5\nx: int? = nil\nif x ?= o {\n" + T("x") + "}\n"),
     ("get_on_present", "o: int? = 5\n" + T("get o") + T("(get o) + 1")),
     ("str_index", "s = \"héllo\"\nr = s[1]\n" + T("r")),
     ("chars", "s = \"ab\"\n" + T("s.chars()")),
@@ -132,6 +132,83 @@ CATALOGUE = [
     ("list_with_optional_class", "class K {\n a: int\n constructor(self, a: int) {\n  self.a = a\n }\n}\nl: [K?...] = [K(1), nil]\nr = l[0]\n" + T("(get r).a")),
     ("fn_typed_var", "f: fn(int) -> int = fn(a: int) -> int {\n return a + 1\n}\n" + T("f") + T("f(1)") + T("f.is_closure()")),
     ("typeof_named_undeclared", "x = 5\nprint typeof -x\n"),
+]
+
+
+# Escaping closures that mention a captured variable exactly once, in each syntactic position: the variable
+# must be captured (otherwise "load before store" = an undefined variable in an accepted program).
+def _cap(name, decls, body, rt, call_args=""):
+    src = "mk = fn() -> (fn() -> %s) {\n" % rt
+    for d in decls:
+        src += "  %s\n" % d
+    src += "  return fn() -> %s {\n" % rt
+    for b in body:
+        src += "    %s\n" % b
+    src += "  }\n}\ncq = mk()\n" + T("cq()") + T("cq()")
+    return ("capture_" + name, src)
+
+
+_KCLS = "class Kc {\n f: int\n constructor(self, a: int) {\n  self.f = a\n }\n fn addv(self, a: int) -> int {\n  return a + self.f\n }\n}\n"
+CAPTURE = [
+    _cap("binop_operand", ["v = 5"], ["return v + 1"], "int"),
+    _cap("binop_right", ["v = 5"], ["return 1 + v"], "int"),
+    _cap("unary_minus", ["v = 5"], ["return -v"], "int"),
+    _cap("not", ["v = true"], ["return !v"], "bool"),
+    _cap("or_fallback", ["v = 7", "o: int? = nil"], ["return (o) or v"], "int"),
+    _cap("or_primary", ["o: int? = 3"], ["return (o) or 1"], "int"),
+    _cap("get", ["o: int? = 3"], ["return get o"], "int"),
+    _cap("nil_test", ["o: int? = 3"], ["return o == nil"], "bool"),
+    _cap("unwrap_assign_rhs", ["o: int? = 3"], ["w: int? = nil", "if w ?= o {", "  return get w", "}", "return 0"], "int"),
+    _cap("unwrap_assign_target", ["w: int? = nil"], ["if w ?= 4 {", "  return get w", "}", "return 0"], "int"),
+    _cap("index_list", ["l: [int...] = [4, 5]"], ["r = l[1]", "return r"], "int"),
+    _cap("map_lookup", ["m = map[str, int] { \"a\": 1 }"], ["r = (m[\"a\"]) or 0", "return r"], "int"),
+    _cap("call_argument", ["v = 5", "g = fn(a: int) -> int {", "  return a * 2", "}"], ["return g(v)"], "int"),
+    _cap("callee", ["g = fn(a: int) -> int {", "  return a * 2", "}"], ["return g(3)"], "int"),
+    _cap("method_argument", ["v = 5", "k = Kc(1)"], ["return k.addv(v)"], "int"),
+    _cap("method_receiver", ["k = Kc(1)"], ["return k.addv(2)"], "int"),
+    _cap("field_read", ["k = Kc(9)"], ["return k.f"], "int"),
+    _cap("builtin_argument", ["v = 5", "l: [int...] = [1]"], ["l.push(v)", "return l.len()"], "int"),
+    _cap("builtin_receiver", ["s = \"abc\""], ["return s.len()"], "int"),
+    _cap("list_literal_element", ["v = 5"], ["q: [int...] = [v, 1]", "return q.len()"], "int"),
+    _cap("map_literal_value", ["v = 5"], ["q = map[str, int] { \"a\": v }", "return q.len()"], "int"),
+    _cap("str_concat", ["v = 5"], ["return \"n\" + v"], "str"),
+    _cap("if_condition", ["v = true"], ["if v {", "  return 1", "}", "return 0"], "int"),
+    _cap("while_condition", ["v = false"], ["while v {", "  return 1", "}", "return 0"], "int"),
+    _cap("from_bound", ["v = 2"], ["t = 0", "from 0 to v {", "  t += 1", "}", "return t"], "int"),
+    _cap("from_step", ["v = 2"], ["t = 0", "from 0 to 4 step v {", "  t += 1", "}", "return t"], "int"),
+    _cap("assignment_value", ["v = 5"], ["x = v", "return x"], "int"),
+    _cap("typed_assignment_value", ["v = 5"], ["x: int = v", "return x"], "int"),
+    _cap("opassign_value", ["v = 5"], ["x = 1", "x += v", "return x"], "int"),
+    _cap("opassign_target", ["v = 5"], ["v += 1", "return v"], "int"),
+    _cap("modify_target", ["v = 5"], ["modify v = v + 1", "return v"], "int"),
+    _cap("index_assign_target", ["l: [int...] = [4, 5]"], ["l[0] = 9", "return l.len()"], "int"),
+    _cap("index_assign_value", ["v = 5"], ["q: [int...] = [1]", "q[0] = v", "r = q[0]", "return r"], "int"),
+    _cap("field_assign_target", ["k = Kc(1)"], ["k.f = 4", "return 4"], "int"),
+    _cap("field_assign_value", ["v = 5", "k = Kc(1)"], ["k.f = v", "return k.f"], "int"),
+    _cap("assert", ["v = true"], ["assert v", "return 1"], "int"),
+    _cap("print", ["v = 5"], ["print v", "return 1"], "int"),
+    _cap("nested_closure", ["v = 5"], ["h = fn() -> int {", "  return v", "}", "return h()"], "int"),
+    _cap("comparison", ["v = 5"], ["return v > 2"], "bool"),
+    _cap("and_right", ["v = true"], ["return true && v"], "bool"),
+    _cap("is_operator", ["k = Kc(1)"], ["j = k", "return j is k"], "bool"),
+    _cap("unpack_source", ["const l = [1, 2]"], ["[a, b] = l", "return a + b"], "int"),
+    _cap("typeof_operand", ["v = 5"], ["return typeof v"], "str"),
+]
+CATALOGUE += [(n, (_KCLS + src) if "Kc(" in src else src) for n, src in CAPTURE]
+
+# function-typed holders: what is stored must have the slot's signature (a call through the slot must yield a value)
+_FH = ("class Hf {\n cb: fn(int) -> int\n constructor(self) {\n  self.cb = fn(a: int) -> int {\n   return a + 1\n  }\n }\n}\n"
+       "hf = Hf()\nf2 = fn(a: int) -> int {\n return a * 2\n}\n")
+CATALOGUE += [
+    ("fn_typed_field", _FH + "hf.cb = f2\ng = hf.cb\n" + T("g(3)")),
+    ("fn_typed_list_element", "f2 = fn(a: int) -> int {\n return a * 2\n}\nl: [fn(int) -> int...] = [f2]\nl[0] = f2\ng = l[0]\n" + T("g(3)")),
+    ("fn_typed_map_value", "f2 = fn(a: int) -> int {\n return a * 2\n}\nm = map[str, fn(int) -> int] { \"a\": f2 }\ng = get m[\"a\"]\n" + T("g(3)")),
+    # the following are ill-typed if the compiler is right and must then be rejected; if a compiler accepts them the
+    # call through the slot has no value / wrong arity => dynamic type error => flagged
+    ("void_fn_into_fn_typed_field", _FH + "hf.cb = fn(a: int) {\n print a\n}\ng = hf.cb\nx = g(3)\n" + T("x")),
+    ("void_fn_into_fn_typed_list", "f2 = fn(a: int) -> int {\n return a * 2\n}\nl: [fn(int) -> int...] = [f2]\nl[0] = fn(a: int) {\n print a\n}\ng = l[0]\nx = g(3)\n" + T("x")),
+    ("void_fn_into_fn_typed_map", "m = map[str, fn(int) -> int] { \"a\": fn(a: int) {\n print a\n} }\ng = get m[\"a\"]\nx = g(3)\n" + T("x")),
+    ("wrong_arity_fn_into_field", _FH + "hf.cb = fn() -> int {\n return 1\n}\ng = hf.cb\nx = g(3)\n" + T("x")),
 ]
 
 
